@@ -491,7 +491,13 @@ Definition mon_C13 : monitor := fun L s st s' =>
    match hs_op st with
    | ORouterOps c funds ops _ to =>
        shape_ok ops &&
-       (match ops with (ANative d, _) :: _ => chk c (ANative d) (coins_of d funds) ops to | _ => true end)
+       (match ops with
+        | (ANative d, _) :: _ =>
+            (* the premise "the router holds none of the route's assets" also covers what arrives WITH the call: a coin of
+               another route asset attached next to the input is such a holding (it stays in the router; C11's business) *)
+            if forallb (fun cn : coin => (fst cn =? d) || negb (existsb (asset_eqb (ANative (fst cn))) (route_assets ops))) funds
+            then chk c (ANative d) (coins_of d funds) ops to else true
+        | _ => true end)
    | OSend ta sd 1 n (HRouterOps ops _ to) => shape_ok ops && chk sd (AToken ta) n ops to
    | _ => true
    end, false).
